@@ -12,7 +12,8 @@ from vf.tlc import MachineryError, render_cfg, require_ok, run_tlc, sany
 META = {
     "engine": "http",
     "text": "TLC enumerates TokenForge!Cases (which token x manipulation x age relative to TTL x cache state x "
-            "continue/cancel, 528 rows) and model-checks HttpStream.tla (served only with a genuine, same-identity, "
+            "continue/cancel x token expiry on/off, incl. a genuine call token older than the TTL next to a fresh cursor and "
+            "complete foreign cursor+call pairs) and model-checks HttpStream.tla (served only with a genuine, same-identity, "
             "same-stream, fresh token pair); every row is concretised on real workers with many concrete manipulations "
             "of real tokens (every byte of both tokens flipped -- every bit in thorough --, every truncation length, "
             "extensions, non-canonical base64 re-encodings, kind swaps, stream swaps, keys of lengths 1..64, identity "
